@@ -198,6 +198,8 @@ def handle : Protocol.Handler := fun j => do
       let o : ListOpts := {
         allowSingleValue := ← fieldBool p "single", allowDuplicates := ← fieldBool p "dups",
         allowCompound := ← fieldBool p "compound", strictCoercion := ← fieldBool p "strict_coercion" }
+      -- an instance of the flag class as datum is iterable (`Flag.__iter__`): outside the model
+      if data.any PyVal.isSelf then throw "flag list loader: instances of the class as data are outside the model"
       let ld := flagListLoader c cfg o
       let dp := flagListDumper c cfg o
       let loads := match ld with
